@@ -1,11 +1,13 @@
 import PermutaModel.Lemmas.C19Find
 import PermutaModel.Lemmas.C19Sym
+import PermutaModel.Lemmas.C19Shapes
 import PermutaModel.Props.C13
 
 /-!
 # C19 — reported enumeration strategies follow their stated conditions
 
-Property theorems only (helpers: `Lemmas/C19Contain.lean`, `Lemmas/C19Core.lean`).
+Property theorems only (helpers: `Lemmas/C19Contain.lean`, `Lemmas/C19Core.lean`, `Lemmas/C19Shape.lean`,
+`Lemmas/C19Shapes.lean`).
 `Model.C19.*` mirrors `permuta/enumeration_strategies/*.py`; the strategy names, their
 `patterns_needed` and the three strategy lists are the tables regenerated from the source
 (`Generated.coreStrategies`, `fastStrategies`, `longStrategies`, `allStrategies`).
@@ -155,6 +157,250 @@ example : Strat.valid .ru2143 [1, 0, 2] = .ok false ∧ Strat.valid .ru2143 [0] 
 example : SumDecomposable [1, 0, 2] ∧ ¬ SumDecomposable [2, 0, 1] ∧ zeroPlusSumind [0, 3, 1, 2] = .ok true :=
   ⟨⟨[1, 0], [0], by decide, by decide, by decide, by decide, by decide⟩,
    fun h => by rw [← isSumDecomposable_iff [2, 0, 1] (by decide)] at h; exact absurd h (by decide), rfl⟩
+
+/-! ## A1 — the remaining shape tests against index-free definitions, for every length
+
+`bstrip` (RdCdCu, RdCu), the two mesh patterns `_M_PATT` and the last sum / skew component (Rd2134, Ru2143).
+Vocabulary (`Lemmas/C19Shapes.lean`): `HasFactor q u v` – `u v` is a consecutive factor of `q`;
+`IsLastSumComponent q c` – `q = a ⊕ c` with `c` non-empty and sum-indecomposable; `IsLastSkewComponent` alike;
+`Shape s p` – the prescribed form of an extra basis element of strategy `s`. -/
+
+/-- `bstrip p` is `r` when `p = r ⊕ 1`, and `p` itself when `p` is not of that form -/
+theorem bstrip_iff_def (p : NSeq) (hp : IsPerm p) (hne : p ≠ []) (r : NSeq) :
+    bstrip p = .ok r ↔
+      (IsPerm r ∧ p = Model.directSum r [0]) ∨ (r = p ∧ ¬ ∃ r', p = Model.directSum r' [0]) :=
+  bstrip_iff p hp hne r
+
+example : bstrip [1, 0, 2] = .ok [1, 0] ∧ [1, 0, 2] = Model.directSum [1, 0] [0] ∧
+    bstrip [0, 2, 1] = .ok [0, 2, 1] ∧ bstrip [] = .error .assertion := ⟨rfl, rfl, rfl, rfl⟩
+
+/-- **shape of RdCdCu** (`zero_plus_sumind(bstrip(p))`) ⇔ `p = 1 ⊕ q ⊕ 1`, or `p = 1 ⊕ q` with `q` non-empty; `q`
+    sum-indecomposable in both cases (the empty `q` is sum-indecomposable: `12 = 1 ⊕ ε ⊕ 1` has the shape,
+    `1 = 1 ⊕ ε` has not) -/
+theorem validRdCdCu_iff_def (p : NSeq) (hp : IsPerm p) :
+    Strat.valid .rdCdCu p = .ok true ↔ ∃ q, IsPerm q ∧ ¬ SumDecomposable q ∧
+      (p = Model.directSum (Model.directSum [0] q) [0] ∨ (q ≠ [] ∧ p = Model.directSum [0] q)) :=
+  sumindBstrip_iff p hp
+
+/-- non-vacuity: `1324 = 1 ⊕ 21 ⊕ 1`, `1423 = 1 ⊕ 312` and `12` have the shape; `1234` and `1` have not -/
+example : Strat.valid .rdCdCu [0, 2, 1, 3] = .ok true ∧ Strat.valid .rdCdCu [0, 3, 1, 2] = .ok true ∧
+    Strat.valid .rdCdCu [0, 1] = .ok true ∧ Strat.valid .rdCdCu [0, 1, 2, 3] = .ok false ∧
+    Shape .rdCdCu [0, 2, 1, 3] ∧ ¬ Shape .rdCdCu [0, 1, 2, 3] ∧ ¬ Shape .rdCdCu [0] :=
+  ⟨rfl, rfl, rfl, rfl, (valid_iff_shape .rdCdCu _ (by decide)).mp rfl,
+   fun h => absurd ((valid_iff_shape .rdCdCu _ (by decide)).mpr h) (by decide),
+   fun h => absurd ((valid_iff_shape .rdCdCu _ (by decide)).mpr h) (by decide)⟩
+
+/-- **shape of RdCu** (`zero_plus_skewind(p) and zero_plus_sumind(bstrip(p))`) ⇔ `p = 1 ⊕ q` with `q`
+    skew-indecomposable, and `p` has the shape of RdCdCu -/
+theorem validRdCu_iff_def (p : NSeq) (hp : IsPerm p) :
+    Strat.valid .rdCu p = .ok true ↔
+      (∃ q, IsPerm q ∧ p = Model.directSum [0] q ∧ ¬ SkewDecomposable q) ∧
+      ∃ q, IsPerm q ∧ ¬ SumDecomposable q ∧
+        (p = Model.directSum (Model.directSum [0] q) [0] ∨ (q ≠ [] ∧ p = Model.directSum [0] q)) :=
+  valid_iff_shape .rdCu p hp
+
+/-- non-vacuity: `1324` has the shape; `1423 = 1 ⊕ (1 ⊖ 12)` fails the first test, `1234` the second -/
+example : Strat.valid .rdCu [0, 2, 1, 3] = .ok true ∧ Strat.valid .rdCu [0, 3, 1, 2] = .ok false ∧
+    Strat.valid .rdCu [0, 1, 2, 3] = .ok false ∧ Shape .rdCu [0, 2, 1, 3] ∧ ¬ Shape .rdCu [0, 3, 1, 2] :=
+  ⟨rfl, rfl, rfl, (valid_iff_shape .rdCu _ (by decide)).mp rfl,
+   fun h => absurd ((valid_iff_shape .rdCu _ (by decide)).mpr h) (by decide)⟩
+
+/-- **shape of RdCu, one decomposition**: `p = 1 ⊕ q` with `q` skew-indecomposable and either `q` non-empty
+    sum-indecomposable or `q = q' ⊕ 1` with `q'` sum-indecomposable -/
+theorem validRdCu_iff_joint (p : NSeq) (hp : IsPerm p) :
+    Strat.valid .rdCu p = .ok true ↔ ∃ q, IsPerm q ∧ p = Model.directSum [0] q ∧ ¬ SkewDecomposable q ∧
+      ((q ≠ [] ∧ ¬ SumDecomposable q) ∨
+        ∃ q', IsPerm q' ∧ q = Model.directSum q' [0] ∧ ¬ SumDecomposable q') := by
+  rw [validRdCu_iff_def p hp]
+  constructor
+  · rintro ⟨⟨q, hq, hpq, hsk⟩, r, hr, hind, h | ⟨hr0, h⟩⟩
+    · refine ⟨q, hq, hpq, hsk, Or.inr ⟨r, hr, ?_, hind⟩⟩
+      rw [C10L.directSum_assoc] at h
+      exact directSum_one_injective (hpq.symm.trans h)
+    · have : q = r := directSum_one_injective (hpq.symm.trans h)
+      subst this
+      exact ⟨q, hq, hpq, hsk, Or.inl ⟨hr0, hind⟩⟩
+  · rintro ⟨q, hq, hpq, hsk, ⟨hq0, hind⟩ | ⟨r, hr, hqr, hind⟩⟩
+    · exact ⟨⟨q, hq, hpq, hsk⟩, q, hq, hind, Or.inr ⟨hq0, hpq⟩⟩
+    · refine ⟨⟨q, hq, hpq, hsk⟩, r, hr, hind, Or.inl ?_⟩
+      rw [C10L.directSum_assoc, ← hqr]
+      exact hpq
+
+/-- non-vacuity: `1324 = 1 ⊕ 213`, `213 = 21 ⊕ 1` -/
+example : ∃ q, IsPerm q ∧ [0, 2, 1, 3] = Model.directSum [0] q ∧ ¬ SkewDecomposable q ∧
+    ((q ≠ [] ∧ ¬ SumDecomposable q) ∨ ∃ q', IsPerm q' ∧ q = Model.directSum q' [0] ∧ ¬ SumDecomposable q') :=
+  (validRdCu_iff_joint [0, 2, 1, 3] (by decide)).mp rfl
+
+/-- **the mesh condition of Rd2134, box form** (via `C04.containsMesh_iff`: the model's containment test is `MeshContains`): `q`
+    contains `_M_PATT = (21, M)` ⇔ there is a descent `q[i] > q[j]`, `i < j`, such that every other point lies
+    in the bottom-left or the bottom-right box (left of `i` or right of `j`, and below `q[j]`) -/
+theorem meshRd_iff_boxes (q : NSeq) (hq : IsPerm q) :
+    Model.containsMesh q ⟨[1, 0], mShading⟩ = true ↔
+      ∃ i j, i < j ∧ j < q.length ∧ q.getD j 0 < q.getD i 0 ∧
+        ∀ k, k < q.length → k ≠ i → k ≠ j → (k < i ∨ j < k) ∧ q.getD k 0 < q.getD j 0 := by
+  rw [C04L.containsMesh_iff (m := ⟨[1, 0], mShading⟩) isPerm_10 hq, meshContains_rd_iff_boxes q hq]
+
+/-- the same for Ru2143: an ascent `q[i] < q[j]` with every other point left of `i` or right of `j`, below `q[i]` -/
+theorem meshRu_iff_boxes (q : NSeq) (hq : IsPerm q) :
+    Model.containsMesh q ⟨[0, 1], mShading⟩ = true ↔
+      ∃ i j, i < j ∧ j < q.length ∧ q.getD i 0 < q.getD j 0 ∧
+        ∀ k, k < q.length → k ≠ i → k ≠ j → (k < i ∨ j < k) ∧ q.getD k 0 < q.getD i 0 := by
+  rw [C04L.containsMesh_iff (m := ⟨[0, 1], mShading⟩) isPerm_01 hq, meshContains_ru_iff_boxes q hq]
+
+/-- **the mesh condition of Rd2134, position form**: `q` contains `(21, M)` ⇔ the maximum is immediately followed
+    by the second largest value -/
+theorem meshRd_iff_adjacent (q : NSeq) (hq : IsPerm q) :
+    Model.containsMesh q ⟨[1, 0], mShading⟩ = true ↔
+      ∃ i, i + 1 < q.length ∧ q.getD i 0 = q.length - 1 ∧ q.getD (i + 1) 0 = q.length - 2 := by
+  rw [C04L.containsMesh_iff (m := ⟨[1, 0], mShading⟩) isPerm_10 hq, meshContains_rd_iff_adjacent q hq]
+
+/-- **the mesh condition of Ru2143, position form**: `q` contains `(12, M)` ⇔ the second largest value is
+    immediately followed by the maximum -/
+theorem meshRu_iff_adjacent (q : NSeq) (hq : IsPerm q) :
+    Model.containsMesh q ⟨[0, 1], mShading⟩ = true ↔
+      ∃ i, i + 1 < q.length ∧ q.getD i 0 = q.length - 2 ∧ q.getD (i + 1) 0 = q.length - 1 := by
+  rw [C04L.containsMesh_iff (m := ⟨[0, 1], mShading⟩) isPerm_01 hq, meshContains_ru_iff_adjacent q hq]
+
+/-- **the mesh conditions, position-free**: `n-1 n-2` (resp. `n-2 n-1`) is a consecutive factor of `q` (a factor
+    `u v` needs two entries, so nothing is contained when `|q| < 2`) -/
+theorem meshRd_iff_factor (q : NSeq) (hq : IsPerm q) :
+    Model.containsMesh q ⟨[1, 0], mShading⟩ = true ↔ HasFactor q (q.length - 1) (q.length - 2) :=
+  containsMesh_rd_iff q hq
+
+theorem meshRu_iff_factor (q : NSeq) (hq : IsPerm q) :
+    Model.containsMesh q ⟨[0, 1], mShading⟩ = true ↔ HasFactor q (q.length - 2) (q.length - 1) :=
+  containsMesh_ru_iff q hq
+
+/-- non-vacuity: `1 4 3 2` contains `(21, M)` (factor `4 3`), `4 1 3 2` does not; `1 3 4 2` contains `(12, M)` -/
+example : Model.containsMesh [0, 3, 2, 1] ⟨[1, 0], mShading⟩ = true ∧
+    Model.containsMesh [3, 0, 2, 1] ⟨[1, 0], mShading⟩ = false ∧
+    Model.containsMesh [0, 2, 3, 1] ⟨[0, 1], mShading⟩ = true ∧
+    Model.containsMesh [0, 3, 2, 1] ⟨[0, 1], mShading⟩ = false :=
+  ⟨(meshRd_iff_factor _ (by decide)).mpr (by decide),
+   by rw [← Bool.not_eq_true, meshRd_iff_factor _ (by decide)]; decide,
+   (meshRu_iff_factor _ (by decide)).mpr (by decide),
+   by rw [← Bool.not_eq_true, meshRu_iff_factor _ (by decide)]; decide⟩
+
+/-- **`last_sum_component`**: on a non-empty permutation the loop returns `c` ⇔ `q = a ⊕ c` with `c` non-empty
+    and sum-indecomposable (so such a `c` exists and is unique); the empty permutation is returned as it is -/
+theorem lastSumComponent_iff_def (q : NSeq) (hq : IsPerm q) (hne : q ≠ []) (c : NSeq) :
+    lastSumComponent q = .ok c ↔ IsLastSumComponent q c := lastSumComponent_iff hq hne c
+
+/-- **`last_skew_component`**: on a non-empty permutation the loop returns `c` ⇔ `q = a ⊖ c` with `c` non-empty
+    and skew-indecomposable -/
+theorem lastSkewComponent_iff_def (q : NSeq) (hq : IsPerm q) (hne : q ≠ []) (c : NSeq) :
+    lastSkewComponent q = .ok c ↔ IsLastSkewComponent q c := lastSkewComponent_iff hq hne c
+
+theorem lastComponent_nil : lastSumComponent [] = .ok [] ∧ lastSkewComponent [] = .ok [] := ⟨rfl, rfl⟩
+
+/-- the last component exists and is unique -/
+theorem lastComponent_unique (q : NSeq) (hq : IsPerm q) (hne : q ≠ []) :
+    (∃ c, IsLastSumComponent q c ∧ ∀ c', IsLastSumComponent q c' → c' = c) ∧
+    (∃ c, IsLastSkewComponent q c ∧ ∀ c', IsLastSkewComponent q c' → c' = c) := by
+  obtain ⟨c, hc⟩ := lastSumComponent_ok q
+  obtain ⟨d, hd⟩ := lastSkewComponent_ok q
+  refine ⟨⟨c, (lastSumComponent_iff hq hne c).mp hc, fun c' h' => ?_⟩,
+    ⟨d, (lastSkewComponent_iff hq hne d).mp hd, fun d' h' => ?_⟩⟩
+  · have := (lastSumComponent_iff hq hne c').mpr h'
+    rw [hc] at this
+    exact (Except.ok.inj this).symm
+  · have := (lastSkewComponent_iff hq hne d').mpr h'
+    rw [hd] at this
+    exact (Except.ok.inj this).symm
+
+/-- non-vacuity: `2 1 4 3 = 21 ⊕ 21`, `3 4 1 2 = 12 ⊖ 12` -/
+example : lastSumComponent [1, 0, 3, 2] = .ok [1, 0] ∧ lastSkewComponent [2, 3, 0, 1] = .ok [0, 1] := by
+  refine ⟨(lastSumComponent_iff (by decide) (by decide) _).mpr ⟨[1, 0], by decide, by decide, by decide, ?_, by decide⟩,
+    (lastSkewComponent_iff (by decide) (by decide) _).mpr ⟨[0, 1], by decide, by decide, by decide, ?_, by decide⟩⟩
+  · intro h; rw [← isSumDecomposable_iff _ (by decide)] at h; exact absurd h (by decide)
+  · intro h; rw [← isSkewDecomposable_iff _ (by decide)] at h; exact absurd h (by decide)
+
+/-- `last_comp not in Av(π)` for a single pattern is "`last_comp` contains `π`"; for `π = 12`, `21` that is a
+    pair of entries in increasing (decreasing) order -/
+theorem notInAv_iff_def (c : NSeq) (hc : IsPerm c) :
+    (Model.avoidsAll c [[0, 1]] = false ↔ ∃ i j, i < j ∧ j < c.length ∧ c.getD i 0 < c.getD j 0) ∧
+    (Model.avoidsAll c [[1, 0]] = false ↔ ∃ i j, i < j ∧ j < c.length ∧ c.getD j 0 < c.getD i 0) := by
+  rw [not_avoids_one_iff c _ hc isPerm_01, not_avoids_one_iff c _ hc isPerm_10]
+  exact ⟨contains_01_iff c, contains_10_iff c⟩
+
+example : Model.avoidsAll [2, 0, 1] [[0, 1]] = false ∧ Model.avoidsAll [1, 0] [[0, 1]] ≠ false := by
+  refine ⟨(notInAv_iff_def _ (by decide)).1.mpr ⟨1, 2, by decide, by decide, by decide⟩, fun h => ?_⟩
+  obtain ⟨i, j, h1, h2, h3⟩ := (notInAv_iff_def _ (by decide)).1.mp h
+  have hj : j = 1 := by simp at h2; omega
+  have hi : i = 0 := by omega
+  subst hi hj
+  simp at h3
+
+/-- `last_comp in Av(12)` (`_NON_INC`) ⇔ the component is decreasing; `in Av(21)` (`_NON_DEC`) ⇔ it is increasing -/
+theorem inAv_iff_monotone (c : NSeq) (hc : IsPerm c) :
+    (Model.avoidsAll c [[0, 1]] = true ↔ c.Pairwise (· > ·)) ∧
+    (Model.avoidsAll c [[1, 0]] = true ↔ c.Pairwise (· < ·)) := by
+  rw [C01.avoidsAll_iff c _ hc (by simpa using isPerm_01), C01.avoidsAll_iff c _ hc (by simpa using isPerm_10),
+    ← not_contains_01_iff hc, ← not_contains_10_iff hc]
+  simp
+
+example : Model.avoidsAll [2, 1, 0] [[0, 1]] = true ∧ Model.avoidsAll [0, 1, 2] [[1, 0]] = true :=
+  ⟨(inAv_iff_monotone _ (by decide)).1.mpr (by decide), (inAv_iff_monotone _ (by decide)).2.mpr (by decide)⟩
+
+/-- **shape of Rd2134, index-free**: `p = 1 ⊕ q`, `n-1 n-2` is not a factor of `q`, and the last sum component of `q`
+    contains `12` or has length one -/
+theorem validRd2134_iff_shape_def (p : NSeq) (hp : IsPerm p) :
+    Strat.valid .rd2134 p = .ok true ↔ ∃ q, IsPerm q ∧ p = Model.directSum [0] q ∧
+      ¬ HasFactor q (q.length - 1) (q.length - 2) ∧
+      ∃ c, IsLastSumComponent q c ∧ (Contains c [0, 1] ∨ c.length = 1) :=
+  validRd2134_iff_shape p hp
+
+/-- **shape of Ru2143, index-free**: `p = 1 ⊕ q`, `n-2 n-1` is not a factor of `q`, and the last skew component of `q`
+    contains `21` -/
+theorem validRu2143_iff_shape_def (p : NSeq) (hp : IsPerm p) :
+    Strat.valid .ru2143 p = .ok true ↔ ∃ q, IsPerm q ∧ p = Model.directSum [0] q ∧
+      ¬ HasFactor q (q.length - 2) (q.length - 1) ∧
+      ∃ c, IsLastSkewComponent q c ∧ Contains c [1, 0] :=
+  validRu2143_iff_shape p hp
+
+/-- non-vacuity: `1 4 2 3 = 1 ⊕ 312` is a valid extension for Rd2134 (`312` is its own last component and contains
+    `12`), `1 3 2 = 1 ⊕ 21` is not (factor `2 1`) -/
+example : Strat.valid .rd2134 [0, 3, 1, 2] = .ok true ∧ ¬ Shape .rd2134 [0, 2, 1] := by
+  have hnd : ¬ SumDecomposable [2, 0, 1] := by
+    intro h; rw [← isSumDecomposable_iff _ (by decide)] at h; exact absurd h (by decide)
+  refine ⟨(validRd2134_iff_shape_def _ (by decide)).mpr ⟨[2, 0, 1], by decide, by decide, ?_,
+    [2, 0, 1], ⟨[], by decide, by decide, by decide, hnd, by decide⟩,
+    Or.inl ((contains_01_iff _).mpr ⟨1, 2, by decide, by decide, by decide⟩)⟩, ?_⟩
+  · decide
+  · rintro ⟨q, hq, hpq, hf, _⟩
+    have : q = [1, 0] := directSum_one_injective (q := q) (q' := [1, 0]) (by rw [← hpq]; rfl)
+    subst this
+    exact hf ⟨[], [], rfl⟩
+
+/-- non-vacuity: `1 3 2 4 = 1 ⊕ 213` is a valid extension for Ru2143 (`213` is skew-indecomposable, contains `21`,
+    and its two largest values `2 3` are not adjacent); `1 3 2 = 1 ⊕ 21` is not (the last skew component of `21`
+    is `1`) -/
+example : Strat.valid .ru2143 [0, 2, 1, 3] = .ok true ∧ ¬ Shape .ru2143 [0, 2, 1] := by
+  have hnd : ¬ SkewDecomposable [1, 0, 2] := by
+    intro h; rw [← isSkewDecomposable_iff _ (by decide)] at h; exact absurd h (by decide)
+  have hnd0 : ¬ SkewDecomposable [0] := by
+    intro h; rw [← isSkewDecomposable_iff _ (by decide)] at h; exact absurd h (by decide)
+  refine ⟨(validRu2143_iff_shape_def _ (by decide)).mpr ⟨[1, 0, 2], by decide, by decide, ?_,
+    [1, 0, 2], ⟨[], by decide, by decide, by decide, hnd, by decide⟩,
+    (contains_10_iff _).mpr ⟨0, 1, by decide, by decide, by decide⟩⟩, ?_⟩
+  · decide
+  · rintro ⟨q, hq, hpq, _, c, hc, hcont⟩
+    have : q = [1, 0] := directSum_one_injective (q := q) (q' := [1, 0]) (by rw [← hpq]; rfl)
+    subst this
+    have hc0 : IsLastSkewComponent [1, 0] [0] := ⟨[0], by decide, by decide, by decide, hnd0, by decide⟩
+    have := (lastComponent_unique [1, 0] (by decide) (by decide)).2
+    obtain ⟨d, _, hu⟩ := this
+    have e1 := hu c hc
+    have e2 := hu [0] hc0
+    rw [e1, ← e2] at hcont
+    obtain ⟨i, j, h1, h2, _⟩ := (contains_10_iff _).mp hcont
+    simp at h2
+    omega
+
+/-- **A1 for all eight strategies**: `is_valid_extension` answers `True` exactly on the permutations of the
+    prescribed index-free shape `Shape s` -/
+theorem valid_iff_shape_def (s : Strat) (p : NSeq) (hp : IsPerm p) : s.valid p = .ok true ↔ Shape s p :=
+  valid_iff_shape s p hp
 
 /-! ## A3 — the two class-test strategies -/
 
@@ -422,5 +668,41 @@ theorem valid_length_one :
 example : Good [1, 3, 0, 2] ∧ Good [2, 0, 3, 1] ∧ Strat.valid .rdCd [0, 3, 1, 2] = .ok true ∧
     Strat.valid .rdCd [0, 1, 3, 2] = .ok false := by
   refine ⟨⟨by decide, by decide⟩, ⟨by decide, by decide⟩, rfl, rfl⟩
+
+/-- **A1 with the shapes spelled out**: a core strategy is reported exactly when, for some symmetry `g` of the
+    square, every needed pattern contains an element of `g · B` and every other element of `g · B` has the
+    strategy's shape -/
+theorem coreApplies_iff_shape (s : Strat) (B : List NSeq) (hne : B ≠ []) (hB : ∀ q ∈ B, Good q) :
+    coreApplies s B = .ok true ↔ ∃ g : D8,
+      (∀ p ∈ s.needed, ∃ q ∈ B.map g.act, Contains p q) ∧
+      ∀ q ∈ B.map g.act, q ∉ s.needed → Shape s q := by
+  rw [coreApplies_iff_orbit s B hne hB]
+  refine exists_congr fun g => and_congr_right fun _ => ?_
+  refine forall₂_congr fun q hq => imp_congr_right fun _ => ?_
+  exact valid_iff_shape s q (good_map_act hB g q hq).1
+
+/-- non-vacuity: for the paper basis `{2413, 3142, 1423}` the identity symmetry works, `1423 = 1 ⊕ 312` having the
+    shape of RdCd -/
+example : ∃ g : D8,
+    (∀ p ∈ Strat.needed .rdCd, ∃ q ∈ [[1, 3, 0, 2], [2, 0, 3, 1], [0, 3, 1, 2]].map g.act, Contains p q) ∧
+    ∀ q ∈ [[1, 3, 0, 2], [2, 0, 3, 1], [0, 3, 1, 2]].map g.act, q ∉ Strat.needed .rdCd → Shape .rdCd q := by
+  have hG : ∀ q ∈ [[1, 3, 0, 2], [2, 0, 3, 1], [0, 3, 1, 2]], Good q := by
+    intro q hq
+    simp only [List.mem_cons, List.not_mem_nil, or_false] at hq
+    rcases hq with rfl | rfl | rfl <;> exact ⟨by decide, by decide⟩
+  have hn : Strat.needed .rdCd = [[1, 3, 0, 2], [2, 0, 3, 1]] := by decide
+  have hH : Holds .rdCd [[1, 3, 0, 2], [2, 0, 3, 1], [0, 3, 1, 2]] := by
+    refine ⟨fun p hp => ⟨p, ?_, contains_refl p⟩, fun q hq hnn => ?_⟩
+    · rw [hn] at hp
+      simp only [List.mem_cons, List.not_mem_nil, or_false] at hp ⊢
+      rcases hp with rfl | rfl <;> simp
+    · rw [hn] at hnn
+      simp only [List.mem_cons, List.not_mem_nil, or_false] at hq hnn
+      rcases hq with rfl | rfl | rfl
+      · exact absurd (Or.inl rfl) hnn
+      · exact absurd (Or.inr rfl) hnn
+      · rfl
+  exact (coreApplies_iff_shape .rdCd _ (by simp) hG).mp
+    ((coreApplies_iff .rdCd _ (by simp) hG).mpr ⟨_, List.mem_cons_self .., hH⟩)
 
 end C19
